@@ -56,8 +56,8 @@ macro_rules! own_mod {
                 /// keys of the nodes this slot's object owns, obtained by *using* them (key() and value())
                 pub fn held(&self) -> Vec<usize> {
                     let chk = |n: &N| -> usize {
-                        assert!(n.value().id == *n.key(), "node value does not belong to its node");
-                        *n.key()
+                        assert!(n.value().id % 1000 == *n.key(), "node value does not belong to its node");
+                        n.value().id
                     };
                     match self {
                         Slot::Empty => vec![],
@@ -87,6 +87,7 @@ macro_rules! own_mod {
                         }
                         slots[i] = s;
                     };
+                    let mut dup_result: Option<(usize, usize, bool)> = None;
                     let r = std::panic::catch_unwind(std::panic::AssertUnwindSafe(|| -> Option<String> {
                         match t[0] {
                             "own.new" => {
@@ -114,6 +115,23 @@ macro_rules! own_mod {
                                 if let Some(Slot::Graph(g)) = slots.get_mut(p(1)) {
                                     g.insert(a);
                                 }
+                            }
+                            "own.dup" => {
+                                // own.dup g k tmp : insert a *different* node with the present key k; it must be refused,
+                                // the original kept and the refused node released
+                                let k = p(2);
+                                let present = matches!(slots.get(p(1)), Some(Slot::Graph(g)) if g.contains(&k));
+                                if !present {
+                                    return Some("skip".into());
+                                }
+                                let id = p(4);
+                                created.push(id);
+                                let dup = N::new(k, DropVal { id, original: true, log: log.clone() });
+                                let r = match slots.get_mut(p(1)) {
+                                    Some(Slot::Graph(g)) => g.insert(dup),
+                                    _ => false,
+                                };
+                                dup_result = Some((k, id, r));
                             }
                             "own.remove" => {
                                 if let Some(Slot::Graph(g)) = slots.get_mut(p(1)) {
@@ -143,9 +161,9 @@ macro_rules! own_mod {
                                     Some(path) => Slot::Opaque(Box::new(move || {
                                         let mut ks = vec![];
                                         for Edge(u, v, _) in path.iter_edges() {
-                                            assert!(u.value().id == *u.key() && v.value().id == *v.key());
-                                            ks.push(*u.key());
-                                            ks.push(*v.key());
+                                            assert!(u.value().id % 1000 == *u.key() && v.value().id % 1000 == *v.key());
+                                            ks.push(u.value().id);
+                                            ks.push(v.value().id);
                                         }
                                         ks
                                     })),
@@ -163,7 +181,7 @@ macro_rules! own_mod {
                                 let a = node_of(&slots, p(1))?;
                                 let ns = order_nodes(&a);
                                 drop(a);
-                                set(&mut slots, p(2), Slot::Opaque(Box::new(move || ns.iter().map(|n| { assert!(n.value().id == *n.key()); *n.key() }).collect())));
+                                set(&mut slots, p(2), Slot::Opaque(Box::new(move || ns.iter().map(|n| { assert!(n.value().id % 1000 == *n.key()); n.value().id }).collect())));
                             }
                             "own.held" => {
                                 let mut h = slots.get(p(1)).map_or(vec![], |s| s.held());
@@ -190,6 +208,11 @@ macro_rules! own_mod {
                         for k in &held {
                             if sorted.contains(k) {
                                 ctx.fail(case, li, "c19", format!("the value of node {k} was released while a handle to it is still held (after `{raw}`)"));
+                            }
+                        }
+                        if let Some((k, id, r)) = dup_result {
+                            if r || !sorted.contains(&id) || sorted.contains(&k) {
+                                ctx.fail(case, li, "c19", format!("insert of a second node with the present key {k} returned {r}; released values {:?}: the refused node must be released and the original (held by the container) must not", sorted));
                             }
                         }
                         for k in &created {
@@ -268,6 +291,7 @@ pub fn gen_history(rng: &mut crate::rng::Rng, fl: &str, id: &str, nnodes: usize,
     }
     l.push(format!("own.graph {g}"));
     let mut orphan_key = 100;
+    let mut dup_count = 0usize;
     let mut scratch_kind: Vec<u8> = vec![0; nscratch]; // 0 empty/unknown, 1 node/edge (clonable), 2 opaque
     for _ in 0..ncalls {
         let a = rng.below(nnodes);
@@ -282,7 +306,15 @@ pub fn gen_history(rng: &mut crate::rng::Rng, fl: &str, id: &str, nnodes: usize,
             3 => {
                 l.push(format!("own.insert {g} {a}"));
             }
-            4 => l.push(format!("own.remove {g} {}", rng.below(nnodes))),
+            4 => {
+                if rng.chance(50) {
+                    l.push(format!("own.remove {g} {}", rng.below(nnodes)));
+                } else {
+                    dup_count += 1;
+                    let k = rng.below(nnodes);
+                    l.push(format!("own.dup {g} {k} {orphan} {}", 1000 * dup_count + k));
+                }
+            }
             5 => {
                 l.push(format!("own.get {g} {} {s}", rng.below(nnodes)));
                 scratch_kind[si] = 1;
